@@ -100,6 +100,12 @@ def to_tp(node, tp):
         return D.Sphere(node.space(tp), pf_py(node.pfs[0]), pf_py(node.pfs[1], scalar=True))
     if k in ("union", "cut", "inter", "prod"):
         a, b = to_tp(node.kids[0], tp), to_tp(node.kids[1], tp)
+        if k == "union" and node.flags.get("disjoint"):
+            from torchphysics.problem.domains.domainoperations.union import UnionDomain
+            return UnionDomain(a, b, disjoint=True)
+        if k == "cut" and node.flags.get("contained"):
+            from torchphysics.problem.domains.domainoperations.cut import CutDomain
+            return CutDomain(a, b, contained=True)
         return a + b if k == "union" else a - b if k == "cut" else a & b if k == "inter" else a * b
     if k == "translate":
         return D.Translate(to_tp(node.kids[0], tp), pf_py(node.pfs[0]))
@@ -131,6 +137,17 @@ def subst(node, sigma):
                 [subst(k, sigma) for k in node.kids], node.flags)
 
 
+def set_flags(node, rng):
+    """`CutDomain(contained=True)` / `UnionDomain(disjoint=True)` change the volume formula (a - b instead of a)
+    and must survive the evaluation"""
+    if node.kind == "cut" and rng.random() < 0.4:
+        node.flags = {"contained": True}
+    if node.kind == "union" and rng.random() < 0.3:
+        node.flags = {"disjoint": True}
+    for k in node.kids:
+        set_flags(k, rng)
+
+
 def frs(d):
     return {k: [str(a) for a in val] for k, val in d.items()}
 
@@ -151,6 +168,14 @@ def make_case(ctx, idx):
     partner = None
     if mode == "solid2":
         node = g.solid(depth, "x")
+        if rng.random() < 0.3:
+            # a parameter-dependent motion at the root
+            if rng.random() < 0.5:
+                node = Node("translate", "x", [g.vec([dy(rng, -2, 2), dy(rng, -2, 2)])], [node])
+            else:
+                p = rng.choice(params)
+                m = PF([c(1), ("*", c(dy(rng, -1, 1, 4) or Fr(1, 4)), v(p)), c(0), c(1)])
+                node = Node("rotate", "x", [m, g.vec([dy(rng, -1, 1), dy(rng, -1, 1)])], [node])
     elif mode == "solid1":
         g.allow_rotate = False
         node = g.solid(min(depth, 2), "y")
@@ -170,6 +195,7 @@ def make_case(ctx, idx):
         node = Node("bdry", None, [], [inner])
     else:  # side: Interval.boundary_left / boundary_right
         node = Node(rng.choice(["bdryL", "bdryR"]), None, [], [g.prim1("y")])
+    set_flags(node, rng)
     free = node.free_vars()
     # the fixed variables: a non-empty subset of the parameters (sometimes all, sometimes one the
     # expression does not use), split into two stages for the repeated evaluation
@@ -357,6 +383,9 @@ def run_impl(case, nonempty=True):
     out["ref"] = None if ref is None else [bool(b) for b in ref.reshape(-1).tolist()]
     if err:
         out["errors"]["ref"] = err
+    # D given only the remaining variables (raises when it depends on a fixed one) — must be the same after the calls
+    _, err = attempt(D._contains, pts, rest_rows)
+    out["bare_before"] = err is None
     # --- E = D(**sigma), E2 = D(**sigma_a)(**sigma_b)
     stage_b = case["stage_b"]
     stage_a = [p for p in sigma if p not in stage_b]
@@ -379,6 +408,8 @@ def run_impl(case, nonempty=True):
         out["E2"] = None if got is None else [bool(b) for b in got.reshape(-1).tolist()]
         if err:
             out["errors"]["E2"] = err
+    _, err = attempt(D._contains, pts, rest_rows)
+    out["bare_after"] = err is None
     if mode == "slice":
         return out
     # --- volume / bounding box / samples, with the distinct parameter rows;
@@ -433,15 +464,15 @@ def run_impl(case, nonempty=True):
             g = None
             out["errors"]["ground"] = f"AssertionError: {str(e)[:120]}"
         out["ground"] = g
-    # --- the declared variables are exactly the needed ones
-    decl = out["nv1"] or []
-    probes = dict(contains=lambda prm: E._contains(pts, prm), volume=lambda prm: E.volume(prm), bbox=lambda prm: E.bounding_box(prm))
-    if dependent_product:
-        probes.pop("volume"); probes.pop("bbox")
-    exact = dict(enough=True, unneeded=[])
-    if set(decl) <= set(rest):
-        prm = mk_params(tp, torch, decl, row_envs)
-        _, err = attempt(probes["contains"], prm)
+    # --- the declared variables are exactly the needed ones (for D(**sigma) and for D itself)
+    def exactness(dom, decl, envs_rows, envs_k):
+        probes = dict(contains=lambda prm: dom._contains(pts, prm), volume=lambda prm: dom.volume(prm), bbox=lambda prm: dom.bounding_box(prm))
+        if dependent_product:
+            probes.pop("volume"); probes.pop("bbox")
+        exact = dict(enough=True, unneeded=[], own=sorted(set(decl) & set(node.vars())))
+        if exact["own"] or not set(decl) <= set(envs_rows[0]):
+            return exact
+        _, err = attempt(probes["contains"], mk_params(tp, torch, decl, envs_rows))
         if err:
             exact["enough"] = False
             exact["enough_err"] = err
@@ -449,14 +480,15 @@ def run_impl(case, nonempty=True):
             less = [p for p in decl if p != x]
             raised = False
             for nm, fn in probes.items():
-                envs = row_envs if nm == "contains" else prow
-                _, err = attempt(fn, mk_params(tp, torch, less, envs))
+                _, err = attempt(fn, mk_params(tp, torch, less, envs_rows if nm == "contains" else envs_k))
                 if err:
                     raised = True
                     break
             if not raised:
                 exact["unneeded"].append(x)
-    out["exact"] = exact
+        return exact
+    out["exact"] = exactness(E, out["nv1"] or [], row_envs, prow)
+    out["exact0"] = exactness(D, out["nv0"], [dict(sigma, **e) for e in row_envs], [dict(sigma, **e) for e in prow])
     # --- purity: the original is unchanged
     out["nv0_after"] = sorted(D.necessary_variables)
     ref2, _ = attempt(D._contains, pts, full_rows)
@@ -600,18 +632,20 @@ def judge(case, impl, replies, sreplies, smeta, rep):
     if f1 != c1:
         rep.notes.append("model: freeVars of peval and pevalC differ")   # cannot happen (theorem pevalC_freeVars)
     # oracle: exactly the needed ones
-    ex = impl.get("exact")
-    if ex is not None and impl.get("nv1") is not None:
+    for who, ex, nv in ((call, impl.get("exact"), impl.get("nv1")), ("D", impl.get("exact0"), impl.get("nv0"))):
+        if ex is None or nv is None:
+            continue
+        if ex["own"]:
+            rep.fail(f"{who} declares its own coordinate variable(s) {ex['own']} as necessary parameters (necessary_variables = {nv})", short(case, of=who))
+            continue
         if not ex["enough"]:
-            rep.fail(f"{call} declares necessary_variables = {impl['nv1']} but its membership test given exactly these variables raises "
-                     f"{ex.get('enough_err')}: a needed variable is not declared", short(case))
+            rep.fail(f"{who} declares necessary_variables = {nv} but its membership test given exactly these variables raises "
+                     f"{ex.get('enough_err')}: a needed variable is not declared", short(case, of=who))
         for x in ex["unneeded"]:
-            rep.fail(f"{call} declares the variable '{x}' as necessary, but membership test, volume and bounding box all work without it "
-                     f"(it was fixed by the call or is not a free variable)", short(case, variable=x))
-        if set(impl["nv1"]) - set(rest) - {case["partner"]}:
-            bad = sorted(set(impl["nv1"]) - set(rest) - {case["partner"]})
-            if any(b in sigma for b in bad):
-                rep.fail(f"{call} still declares the fixed variable(s) {[b for b in bad if b in sigma]} as necessary", short(case))
+            rep.fail(f"{who} declares the variable '{x}' as necessary, but membership test, volume and bounding box all work without it "
+                     f"(it was fixed by the call or is not a free variable)", short(case, of=who, variable=x))
+    if impl.get("nv1") is not None and set(impl["nv1"]) & set(sigma):
+        rep.fail(f"{call} still declares the fixed variable(s) {sorted(set(impl['nv1']) & set(sigma))} as necessary", short(case))
     # ---------------- membership: model vs E, E vs original
     if "E" in errors:
         if all(r.split()[0] == "none" for r in mem):
@@ -750,12 +784,19 @@ def judge(case, impl, replies, sreplies, smeta, rep):
         elif (how, "E") in outside:
             rep.count(f"sample-{how}-outside-for-both(C01)")
     # ---------------- purity
+    purity(case, impl, rep)
     if impl.get("nv0_after") is not None and impl["nv0_after"] != impl["nv0"]:
         rep.fail(f"calling D changed D.necessary_variables from {impl['nv0']} to {impl['nv0_after']}", short(case))
     if impl.get("ref") is not None and impl.get("ref_after") is not None and impl["ref"] != impl["ref_after"]:
         rep.fail("calling D changed the membership test of D itself (same points, same parameters, different answers)", short(case))
     if impl.get("volume_ref") is not None and impl.get("volume_ref_after") is not None and not close_lists(impl["volume_ref"], impl["volume_ref_after"], 1e-7):
         rep.fail(f"calling D changed D.volume from {impl['volume_ref']} to {impl['volume_ref_after']}", short(case))
+
+
+def purity(case, impl, rep):
+    if impl.get("bare_before") is False and impl.get("bare_after") is True:
+        rep.fail("calling D changed D itself: before the call D._contains without the fixed variables raised (they are necessary), "
+                 "after the call it answers — the values were written into the original's parameter functions", short(case))
 
 
 def judge_slice(case, impl, replies, rep, call):
@@ -779,6 +820,7 @@ def judge_slice(case, impl, replies, rep, call):
         except KeyError:
             inside_partner = False
     rep.count("slice-inside-partner" if inside_partner else "slice-outside-partner")
+    purity(case, impl, rep)
     if "E" in errors:
         rep.fail(f"membership test of the sliced product {call} raised {errors['E']}", short(case, point=rows[0][0]))
         return
@@ -819,7 +861,7 @@ def run(ctx, rep, cases=None):
                 "0-3 remaining parameter rows; queries = random dyadic points + points at relative distance 0, ±1e-1..±1e-3 from the "
                 "edges; non-trivial = the expression depends on a fixed variable; distinct = distinct (expression, fixed values, rows)")
     if cases is None:
-        cases = [make_case(ctx, i) for i in range(ctx.scale(150, 1600))]
+        cases = [make_case(ctx, i) for i in range(ctx.scale(320, 3400))]
     spans, lines = [], []
     for cs in cases:
         ls = case_lines(cs)
@@ -844,7 +886,7 @@ def run(ctx, rep, cases=None):
         rep.count("remaining-param-rows:%d" % cs["k"])
         if cs["stage_b"] and len(cs["stage_b"]) < len(cs["sigma"]):
             rep.count("two-stage-evaluation")
-        if im.get("samples_skipped"):
+        if im.get("samples_skipped") and cs["mode"] not in ("slice", "prod"):
             rep.count("sampling-skipped(no non-emptiness certificate)")
         nontrivial = any(p in cs["free"] or p == cs["partner"] for p in cs["sigma"])
         rep.case(dict(dom=cs["dom"], sigma=cs["sigma"], prow=cs["prow"], rows=len(cs["rows"])), nontrivial,
